@@ -268,7 +268,7 @@ def gen_decimal(ctx, rng, kind, dec, ths):
     other = "," if dec == "." else "."
     if not ths:
         add("1" + other + "5")  # the other convention's separator is no separator here
-    for junk in ("abc", "1x", "--1", "1 2", "", "1e", "NaN", "Infinity", "1e3", "+1", ".5", "5."):
+    for junk in ("abc", "1x", "--1", "1 2", "", "1e", "NaN", "Infinity", "-Infinity", "inf", "-INF", "sNaN", "1e3", "+1", ".5", "5."):
         if junk:
             add(junk, junk in ("abc", "1x", "--1", "1 2", "1e"))
     return length, rule, cells, flags
@@ -372,7 +372,7 @@ def gen_datetime(ctx, rng, kind):
             cells.append(text + " 00:00:00")
             flags.append(True)
         # field-level mutations
-        for key, bad in (("MM", 13), ("MM", 0), ("DD", 32), ("DD", 0), ("hh", 24), ("mm", 60), ("ss", 62), ("DD", 30), ("DD", 31), ("DD", 29)):
+        for key, bad in (("MM", 13), ("MM", 0), ("DD", 32), ("DD", 0), ("hh", 24), ("mm", 60), ("ss", 62), ("ss", 61), ("DD", 30), ("DD", 31), ("DD", 29)):
             if key in tokens:
                 w = dict(v)
                 if key == "DD" and bad in (29, 30, 31):
